@@ -12,7 +12,7 @@ import (
 
 func genRem(g *Gen) {
 	nHist := g.Scale(90, 1500)
-	for h := 0; h < nHist; h++ {
+	for h := 0; h < nHist || (!g.Covered() && h < 6*nHist); h++ {
 		genRemHistory(g, h)
 	}
 	if !g.Quick() {
